@@ -98,6 +98,10 @@ ARG_POOL = (
     ArgDef("xs", L(N("Float"))),
 )
 
+ODD_FIELD_NAMES = ("items", "keys", "values", "copy", "update", "get", "pop",
+                   "count", "index", "class", "from", "None", "type", "format",
+                   "real", "fields", "errors", "path", "node", "args")
+
 BEHAVIOURS = ("sync", "default", "async", "awaitable", "nested", "gen",
               "rtapi", "shared", "tdefault")
 BEHAVIOUR_WEIGHTS = (5, 3, 5, 3, 2, 2, 2, 2, 2)
@@ -258,13 +262,25 @@ def gen_schema(st, want_mutation=False, small=False,
     n_leaf = 4 + st.below(5, "n_leaf")
     n_comp = 2 + st.below(4, "n_comp")
     leaf_fields, comp_fields = [], []
+    # now and then fields are called what applications call them: names that
+    # are also methods of the containers object values are made of, Python
+    # keywords, names of builtins
+    odd = st.chance(1, 3, "odd_names")
+
+    def field_name(default):
+        if odd and st.chance(1, 3, "odd_name"):
+            cand = [n for n in ODD_FIELD_NAMES if n not in spec.fields]
+            if cand:
+                return cand[st.below(len(cand), "odd_pick")]
+        return default
+
     for i in range(n_leaf):
-        name = "f%d" % i
+        name = field_name("f%d" % i)
         base = LEAF_NAMES[st.below(len(LEAF_NAMES), "leaf")]
         spec.fields[name] = FieldDef(name, draw_type(base), draw_args())
         leaf_fields.append(name)
     for i in range(n_comp):
-        name = "g%d" % i
+        name = field_name("g%d" % i)
         base = composite_targets[st.below(len(composite_targets), "ctarget")]
         spec.fields[name] = FieldDef(name, draw_type(base), draw_args())
         comp_fields.append(name)
